@@ -9,6 +9,33 @@ import pipeline
 FRAGMENTS = [")", "]", ":", ") x", "] = 3;", ": ;", ")\n", "]\n", "?", "...", ",", "->a", ". b", "%", "}}", "else )", "@@)"]
 
 
+DIRECTIVES = ["# define A_%d 1", "# include <a%d.h>", "# ifdef B_%d", "#  error \"no b%d\"", "#  warning w%d", "# endif", "# undef U_%d",
+              "# pragma once", "# if defined(C_%d)", "# elif D_%d", "# else", "# warning be careful %d", "# error stop %d",
+              "# ifndef E_%d", "#  define F_%d (1 + 2)", "# import \"i%d.h\""]
+DECLS = ["int\tf_%d(void);", "typedef int\tt_i%d;", "extern int\tg_a%d;", "char\t*ft_s%d(char *s, int n);", "// c %d", "/* c %d */"]
+
+
+def flat_header(rnd):
+    """A .h file in which EVERY line is one statement by construction (a header comment line, an empty line, one
+    preprocessor directive or one declaration): the number of statements is the number of lines.  Not necessarily
+    conforming (directive nesting and empty lines are drawn freely): the partition must hold all the same."""
+    import impl
+    lines = ["", "#ifndef FLAT_H", "# define FLAT_H", ""]
+    for k in range(rnd.randint(3, 14)):
+        r = rnd.random()
+        if r < 0.55:
+            d = rnd.choice(DIRECTIVES)
+        elif r < 0.85:
+            d = rnd.choice(DECLS)
+        else:
+            d = ""
+        lines.append(d % k if "%d" in d else d)
+        if rnd.random() < 0.45:
+            lines.append(rnd.choice(["", "", "\t", " "]))
+    lines += ["", "#endif"]
+    return "flat.h", impl.HDR + "\n".join(lines) + "\n"
+
+
 def statement_boundaries(src):
     """offsets of line starts (candidate statement boundaries) after the header"""
     out, off = [], 0
@@ -79,6 +106,21 @@ def run(run, tier, seed, replay=None):
             if why:
                 found |= run.violation("correspondence-registry-loop", dict(data, why=why))
     run.count("conforming programs + brace-line variants (%d): tiling, alignment, depth (statements checked: %d)" % (len(variants), nseg), len(cases), len(cases))
+    # ---- (1b) the number of statements known by construction: files made of one-line statements
+    if replay is None or replay["data"].get("name") == "flat.h":
+        flats = [flat_header(rnd) for _ in range(80 if tier == "quick" else 2000)] if replay is None else [("flat.h", replay["data"]["src"])]
+        nfl = 0
+        for src, name, debug, r in pipeline.run_many([(s_, n_, 0) for n_, s_ in flats]):
+            if r["kind"] != "ok":
+                continue        # unbalanced directives may be fatal: that is a diagnostic, not a silent skip
+            nfl += 1
+            nlines = src.count("\n")
+            npops = len([e for e in r["events"] if e[0] == "pop"])
+            if npops != nlines or any(r["inner_newlines"]):
+                k = next((i for i, x in enumerate(r["inner_newlines"]) if x), None)
+                found |= run.violation("statement-count-differs", {"name": name, "src": src, "lines": nlines, "statements": npops,
+                                                                   "first_statement_over_several_lines": k})
+        run.count("one-statement-per-line headers (every directive kind): statements = lines", len(flats), nfl)
     # ---- (2) an unrecognisable fragment at a statement boundary must be fatal.  "Unrecognisable" is decided by
     # the tool itself: the same text under -d prints `uncaught ->`.
     if replay is None:
@@ -135,6 +177,29 @@ def run(run, tier, seed, replay=None):
                     found |= run.violation("correspondence-registry-loop", {"name": name, "src": src, "why": why})
         elif r["kind"] == "ok":
             found |= run.violation("unrecognised-text-dropped", {"name": name, "src": src, "status": r.get("status")})
+    # the same through the command line: fatal diagnostic naming the file and non-zero status, wherever the file
+    # stands among the arguments
+    if replay is None and unrec:
+        import impl, tempfile, shutil
+        tmpd = tempfile.mkdtemp(prefix="nvc07_")
+        ncli = 0
+        try:
+            good = progs[0][1]
+            for k, (src, name, _) in enumerate(unrec[:6 if tier == "quick" else 40]):
+                d = os.path.join(tmpd, "r%d" % k)
+                os.makedirs(d)
+                for n_, s_ in (("bad.c", src), ("good1.c", good), ("good2.c", good)):
+                    with open(os.path.join(d, n_), "w") as fh:
+                        fh.write(s_)
+                for argv in (["bad.c"], ["good1.c", "bad.c"], ["bad.c", "good1.c"], ["good1.c", "bad.c", "good2.c"]):
+                    code, out, err, exc = impl.run_main_subprocess(["--no-colors"] + argv, cwd=d)
+                    ncli += 1
+                    if exc is not None or code in (0, None) or "bad.c: Error!" not in out:
+                        found |= run.violation("unrecognised-text-not-fatal-in-run", {"name": "bad.c", "src": src, "argv": argv,
+                                                                                      "exit": code, "stdout": out[-600:], "stderr": err[-400:]})
+        finally:
+            shutil.rmtree(tmpd, ignore_errors=True)
+        run.count("command-line runs with an unparsable file first / last / between clean files", ncli, ncli)
     run.count("fragment insertions (all)", len(ins), 0)
     run.count("fragment insertions that the tool itself reports as unrecognised under -d", len(unrec), len(unrec))
     run.cov["unrecognised_and_fatal"] = nfatal
